@@ -211,6 +211,23 @@ pub fn run_c10(ctx: &mut Ctx, shard: usize, nshards: usize) {
             }
         });
     }
+    // every (length, prefix length) pair of a PRIV item
+    if ctx.scale >= 0.5 {
+        let n = gb::sdes_priv_pairs(shard, nshards, &mut |b| check_c10(ctx, b));
+        ctx.class_add("exhaustive:sdes-priv(all 65536 (length, prefix length) pairs)", n);
+    }
+    // the relational SDES configurations (item-less chunks, blank values, ...) through the model encoder, padded and not
+    for (k, c) in crate::mon::writers::relational_cfgs().into_iter().enumerate() {
+        if k % nshards == shard && matches!(c, Cfg::Sdes { .. }) {
+            for p in [0u8, 4, 8] {
+                let mut c = c.clone();
+                c.set_padding(p);
+                if let Some(b) = enc::enc(&c) {
+                    check_c10(ctx, &b);
+                }
+            }
+        }
+    }
     // well-formed packets from the independent encoder, then mutated
     let n = ctx.n(if ctx.thorough { 600_000 } else { 40_000 });
     let mut s = Src::prng(mix(ctx.seed, 0xc10 + shard as u64));
@@ -591,6 +608,32 @@ pub fn run_c15(ctx: &mut Ctx, shard: usize, nshards: usize) {
             check_c15_direct(ctx, &d);
         }
     }
+    // repeated and nearly-repeated words / entries (a decoder must not deduplicate or merge)
+    if shard == 0 {
+        let reps: Vec<Vec<u8>> = vec![
+            [[0u8, 0, 0, 7, 9, 0, 0, 0]; 3].concat(),                                     // the same FIR entry three times
+            [[1u8, 2, 3, 4, 5, 0, 0, 0], [1, 2, 3, 4, 5, 0xff, 0xff, 0xff]].concat(),        // equal in SSRC and sequence, reserved bytes differ
+            [[1u8, 2, 3, 4, 5, 0, 0, 0], [1, 2, 3, 4, 6, 0, 0, 0], [1, 2, 3, 4, 5, 0, 0, 0]].concat(), // A, B, A
+            [[0x12u8, 0x34, 0x00, 0x05]; 4].concat(),                                      // the same NACK / SLI word four times
+            [[0x12u8, 0x34, 0x00, 0x05], [0x12, 0x35, 0x00, 0x02]].concat(),               // overlapping NACK windows
+            [[0x00u8, 0x64, 0x05, 0x07], [0x00, 0x78, 0x07, 0x87]].concat(),
+            vec![0u8; 24],
+            vec![0xffu8; 24],
+        ];
+        for r in &reps {
+            for f in 0..5usize {
+                let (transport, fmt) = home(f);
+                check_c15(ctx, transport, fmt, r);
+            }
+            check_c15_direct(ctx, r);
+        }
+        // SLI words that describe contiguous runs of one picture (must come out as separate entries)
+        let w = |first: u32, num: u32, pic: u32| ((first << 19) | (num << 6) | pic).to_be_bytes();
+        let runs = [w(100, 20, 7), w(120, 30, 7), w(150, 1, 7)].concat();
+        check_c15(ctx, false, 2, &runs);
+        check_c15_direct(ctx, &runs);
+        ctx.class("c15:repeated-entries");
+    }
     // control information of 64 KiB and more (the byte length no longer fits 16 bits): every decoder behind
     // its home (kind, format), and the direct parsers
     if ctx.scale >= 0.5 {
@@ -785,6 +828,22 @@ pub fn run_c13(ctx: &mut Ctx, shard: usize, nshards: usize) {
     bases.push(Cfg::Fb { kind: FbKind::Payload, sender: 1, media: 2, fci: Fci::Pli, padding: 0 });
     bases.push(Cfg::Sdes { chunks: vec![], padding: 0 });
     bases.push(Cfg::Sdes { chunks: vec![Chunk { ssrc: 0, items: vec![] }], padding: 0 });
+    // relational configurations (contiguous SLI runs, FCIs of 256 / 512 bytes, blank strings, item-less chunks, ...)
+    for mut c in crate::mon::writers::relational_cfgs() {
+        if !c.is_compound() {
+            c.set_padding(0);
+            if crate::mon::roundtrip::in_domain(&c) {
+                bases.push(c);
+            }
+        }
+    }
+    // control information whose size is a multiple of 256 bytes, for every FCI kind
+    for words in [64usize, 128, 192, 256] {
+        bases.push(Cfg::Fb { kind: FbKind::Transport, sender: 1, media: 2, fci: Fci::Nack((0..words as u16).map(|i| i * 17).collect()), padding: 0 });
+        bases.push(Cfg::Fb { kind: FbKind::Payload, sender: 1, media: 2, fci: Fci::Sli((0..words as u16).map(|i| (i, 1, 2)).collect()), padding: 0 });
+        bases.push(Cfg::Fb { kind: FbKind::Payload, sender: 1, media: 2, fci: Fci::Fir((0..(words / 2) as u32).map(|i| (i, 1)).collect()), padding: 0 });
+        bases.push(Cfg::Fb { kind: FbKind::Payload, sender: 1, media: 2, fci: Fci::Rpsi { pt: 1, bits: vec![0xcc; 4 * words - 2], overrun: 0 }, padding: 0 });
+    }
     for c in &bases {
         let Some(b) = enc::enc(c) else { continue };
         for p in (4..=252u16).step_by(4) {
